@@ -85,6 +85,14 @@ class Enumerator:
         self.defs: Dict[str, ast.AST] = single_defs(fn_node) if inline_temps else {}
         # only pure temporaries are inlined (no calls with effects we would duplicate or lose)
         self.defs = {k: v for k, v in self.defs.items() if not any(isinstance(x, (ast.Yield, ast.YieldFrom, ast.Await, ast.NamedExpr)) for x in ast.walk(v))}
+        # names whose object is mutated in place later (x.append(..), x[i] = ..) are real variables, not temporaries
+        mutated = set()
+        for x in ast.walk(fn_node):
+            if isinstance(x, ast.Call) and isinstance(x.func, ast.Attribute) and isinstance(x.func.value, ast.Name) and x.func.attr in ("append", "extend", "insert", "pop", "remove", "clear", "update", "add", "discard", "sort", "reverse", "setdefault", "popleft", "appendleft"):
+                mutated.add(x.func.value.id)
+            if isinstance(x, (ast.Subscript, ast.Attribute)) and isinstance(x.ctx, (ast.Store, ast.Del)) and isinstance(x.value, ast.Name):
+                mutated.add(x.value.id)
+        self.defs = {k: v for k, v in self.defs.items() if not (k in mutated and isinstance(v, (ast.List, ast.Dict, ast.Set, ast.ListComp, ast.DictComp, ast.SetComp, ast.Call)))}
         self.inlined = set()
         self.max_paths = max_paths
 
@@ -221,6 +229,15 @@ class Enumerator:
             if st.orelse:
                 raise Unsupported("for-else")
             return [(ev, None)]
+        if isinstance(st, ast.With):
+            head = [("with", self.tx(i.context_expr)) for i in st.items]
+            return [(head + ev, t) for ev, t in self.block(st.body)]
+        if isinstance(st, ast.Try) and not st.handlers and not st.orelse:
+            out = []
+            for ev, t in self.block(st.body):
+                for ev2, t2 in self.block(st.finalbody):
+                    out.append((ev + [("finally",)] + ev2, t2 if t2 is not None else t))
+            return out
         if isinstance(st, (ast.Import, ast.ImportFrom, ast.Global, ast.Nonlocal, ast.FunctionDef, ast.ClassDef)):
             return [([], None)]
         if isinstance(st, ast.Assert):
@@ -295,3 +312,85 @@ def consistent(path: Path, scen: Dict[str, bool]) -> bool:
 
 def select(paths, scen: Dict[str, bool]) -> List[Path]:
     return [p for p in paths if consistent(p, scen)]
+
+
+# ---------------------------------------------------------------------------
+# path-local values: substitute the latest value stored to a plain name into later events of the same path, and fold
+# step-by-step list construction (x = [a]; x.extend(b); x.append(c)) into one list display
+
+def resolve(path: Path) -> Path:
+    import copy
+    env: Dict[str, ast.AST] = {}
+    out: List[Event] = []
+
+    class S(ast.NodeTransformer):
+        def visit_Name(self, node):
+            if isinstance(node.ctx, ast.Load) and node.id in env:
+                return copy.deepcopy(env[node.id])
+            return node
+
+        def visit_Lambda(self, node):
+            return node
+
+    def parse(text):
+        try:
+            return ast.parse(text, mode="eval").body
+        except (SyntaxError, ValueError, TypeError):
+            return None
+
+    def sub(text):
+        if text is None:
+            return None
+        e = parse(text)
+        if e is None:
+            return text
+        return norm(S().visit(e))
+
+    for ev in path:
+        k = ev[0]
+        if k == "set":
+            tgt = ev[1]
+            e = parse(ev[2]) if ev[2] is not None else None
+            if e is None:
+                env.pop(tgt, None)
+                out.append(ev)
+                continue
+            val = S().visit(e)
+            if tgt.isidentifier():
+                env[tgt] = val
+            else:
+                for name in [n.id for n in ast.walk(parse(tgt) or ast.Constant(value=0)) if isinstance(n, ast.Name) and isinstance(n.ctx, ast.Store)]:
+                    env.pop(name, None)
+            out.append(("set", tgt, norm(val)))
+        elif k == "do":
+            e = parse(ev[1])
+            folded = False
+            if isinstance(e, ast.Call) and isinstance(e.func, ast.Attribute) and isinstance(e.func.value, ast.Name) and e.func.value.id in env and isinstance(env[e.func.value.id], ast.List) and len(e.args) == 1 and not e.keywords:
+                lst = env[e.func.value.id]
+                a = S().visit(copy.deepcopy(e.args[0]))
+                if e.func.attr == "append":
+                    lst.elts.append(a)
+                    folded = True
+                elif e.func.attr == "extend":
+                    if isinstance(a, (ast.List, ast.Tuple)):
+                        lst.elts.extend(a.elts)
+                    else:
+                        lst.elts.append(ast.Starred(value=a, ctx=ast.Load()))
+                    folded = True
+            if not folded:
+                out.append(("do", sub(ev[1])))
+        elif k in ("yield", "yieldfrom", "return", "raise", "with"):
+            out.append((k, sub(ev[1])) if len(ev) > 1 else ev)
+        elif k == "cond":
+            out.append(("cond", sub(ev[1]), ev[2]))
+        elif k == "loop":
+            # names stored inside the loop are unknown afterwards
+            for body in ev[3]:
+                for e2 in body:
+                    if e2[0] == "set":
+                        env.pop(e2[1], None)
+            env.pop(ev[1], None)
+            out.append(("loop", ev[1], sub(ev[2]), ev[3]))
+        else:
+            out.append(ev)
+    return tuple(out)
